@@ -180,6 +180,10 @@ def _bin(op):
 
 
 reg('ARITH', 'std::ops::Add::add', 'burn::tensor::Tensor::add', 'burn::tensor::Tensor::add_scalar')(_bin('Add'))
+# modular arithmetic on machine integers: ring operations (injectivity arguments hold mod 2^64 for unit coefficients)
+reg('ARITH', *['%s::wrapping_add' % t for t in ('u64', 'u32', 'usize', 'i64', 'u128')])(_bin('Add'))
+reg('ARITH', *['%s::wrapping_sub' % t for t in ('u64', 'u32', 'usize', 'i64', 'u128')])(_bin('Sub'))
+reg('ARITH', *['%s::wrapping_mul' % t for t in ('u64', 'u32', 'usize', 'i64', 'u128')])(_bin('Mul'))
 reg('ARITH', 'std::ops::Sub::sub', 'burn::tensor::Tensor::sub', 'burn::tensor::Tensor::sub_scalar')(_bin('Sub'))
 reg('ARITH', 'std::ops::Mul::mul', 'burn::tensor::Tensor::mul', 'burn::tensor::Tensor::mul_scalar')(_bin('Mul'))
 reg('ARITH', 'std::ops::Div::div', 'burn::tensor::Tensor::div', 'burn::tensor::Tensor::div_scalar')(_bin('Div'))
